@@ -126,6 +126,7 @@ def _run_job(args):
         _facade.OPAQUE_INV_FROM = None  # per-job switches must not leak between jobs run by the same worker
         _facade.USED_STUBS.clear()
         _facade._ACTIVE[0] = False
+        _facade.EXACT_SQRT2[0] = False
         from . import sym as _sym
 
         _sym.INPLACE_PROMOTIONS[0] = 0
